@@ -1,7 +1,7 @@
 //@ unit u2b_ingest props C02 also C17
 // Unit U2b: the first filter of rows received from a peer (src/database/graph_database.rs: GraphDatabase::add_nodes and
 // add_edges), in front of the authorisation actor (unit u2_verdicts).  A received node goes on to authorisation only if it
-// carries a row, that row is stored in the room being synchronised, its entity is known to the data model and its content
+// carries a row, that row is stored in the room being synchronised, it is of the same entity as the stored row it would replace, its entity is known to the data model and its content
 // conforms to that entity; every other node is reported as rejected by id and goes nowhere.  A received reference goes on only
 // if its source entity is known.  Exactly one of the two happens for every element (E14: loop bodies lifted; the loop shells
 // `for x in xs { body(x) }` are not verified).
@@ -57,6 +57,8 @@ pub open spec fn ov_str(o: Option<String>) -> Option<Seq<char>> { match o { Some
 pub open spec fn node_admissible(dm: DataModel, room_id: Uid, n: NodeToInsert) -> bool {
     n.node is Some
     && n.node->Some_0.room_id is Some && n.node->Some_0.room_id->Some_0 =~= room_id
+    // a stored row is replaced only by a version of the same entity: the rights (unit u2_verdicts) are decided on the entity of the incoming row
+    && (n.old_entity is Some ==> n.old_entity->Some_0@ == n.node->Some_0._entity@)
     && spec_name_for(dm, n.node->Some_0._entity@) is Some
     && spec_entity(dm, spec_name_for(dm, n.node->Some_0._entity@)->Some_0@) is Some
     && json_conforms(spec_entity(dm, spec_name_for(dm, n.node->Some_0._entity@)->Some_0@)->Some_0, n.node->Some_0._json)
@@ -72,7 +74,7 @@ pub open spec fn entity_of(dm: DataModel, n: NodeToInsert) -> Entity { spec_enti
             proof { assert(<[u8; 16] as PartialEqSpec<[u8; 16]>>::obeys_eq_spec()); }
 //@ spec
         ensures
-            // [received_node_passes_only_if_in_room_and_model]{C02} a node received from a peer goes on to authorisation only if it carries a row stored in the room being synchronised whose entity is known and whose content conforms to the data model
+            // [received_node_passes_only_if_in_room_and_model]{C02} a node received from a peer goes on to authorisation only if it carries a row stored in the room being synchronised, of the same entity as the stored version it replaces, whose entity is known and whose content conforms to the data model
             node_admissible(self.data_model, room_id, node_to_insert0) ==> final(invalid_nodes)@ == old(invalid_nodes)@ && final(valid_nodes)@.len() == old(valid_nodes)@.len() + 1
                 && final(valid_nodes)@.subrange(0, old(valid_nodes)@.len() as int) == old(valid_nodes)@
                 && final(valid_nodes)@.last().node == node_to_insert0.node && final(valid_nodes)@.last().id == node_to_insert0.id
